@@ -45,6 +45,8 @@ type Session struct {
 	lsession    string // 本地会话标识
 	timeout     time.Duration
 	conn        websocket.Conn
+	wsPath      string // stream path of the control channel's URL
+	username    string // user verified by the HTTP upgrade ("" when authentication is off)
 	lockW       sync.Mutex
 	dataChannel websocket.Conn
 
@@ -75,6 +77,8 @@ func newSession(svr *Server, conn websocket.Conn, channelID string) *Session {
 		lsession:  security.NewID().Base64(),
 		timeout:   config.NetTimeout() * time.Duration(2),
 		conn:      conn,
+		wsPath:    conn.Path(),
+		username:  conn.Username(),
 		transport: rtsp.RTPTransport{
 			Mode: rtsp.PlaySession, // 默认为播放
 			Type: rtsp.RTPUnknownTrans,
